@@ -7,7 +7,10 @@ from lib.core import exc_name, idset
 
 ID = "C09"
 AUDIT_IMPORTS = ["HypatiaProofs.Properties.C09"]
-THEOREMS = ["Hyp.Persist." + t for t in ("c09_abort_effective",)]
+THEOREMS = ["Hyp.Persist." + t for t in (
+    "c09_refinement", "c09_commit_reopen", "c09_abort_restores", "c09_rollback_restores", "c09_evict_invisible",
+    "c09_undisciplined_lost", "c09_undisciplined_survives_abort", "c09_hypatia_blocks_disciplined",
+    "c09_blocks_compose")]
 CASES = {"quick": 130, "thorough": 5000}
 BUDGET_S = {"quick": 45, "thorough": 780}
 BATCH = 10
